@@ -628,6 +628,12 @@ def rules(ctx):
 S = "src/leaspy/variables/state.py"
 G = "src/leaspy/samplers/gibbs.py"
 VARIANTS = [
+    V("silent-extract-assign-helper", S, """            raise LeaspyInputError(f"'{name}' is not intended to be set")
+        sorted_children = self.dag.sorted_children[name]""", """            raise LeaspyInputError(f"'{name}' is not intended to be set")
+        self._assign(name, value)
+
+    def _assign(self, name, value) -> None:
+        sorted_children = self.dag.sorted_children[name]""", None),
     V("auto-fork-not-restored-on-exception", S, "        try:\n            self.auto_fork_type = type\n            yield\n        finally:\n            self.auto_fork_type = orig_auto_fork_type\n",
       "        self.auto_fork_type = type\n        yield\n        self.auto_fork_type = orig_auto_fork_type\n", "C02.R7"),
     V("snapshot-after-store", S, """        if self.auto_fork_type is not None:
